@@ -14,16 +14,32 @@ Open Scope Z_scope.
 Record group := { gid : Z; gsid : Z; parts : list (str * Z) }.     (* id, publisher id, (topic, payload) *)
 
 Definition gtopics (g : group) : list str := map fst (parts g).
+(* the parts a subscribe-all consumer's socket lets through: hidden ('_...') topics travel under a wire topic without
+   the leading '/', which SUBSCRIBE "/" filters out; their names still appear in every topic list *)
+Definition vparts (g : group) : list (str * Z) := filter (fun tp => negb (hidden (fst tp))) (parts g).
 Definition data_msg (g : group) (tp : str * Z) : wmsg :=
   {| w_wtopic := wire_of_topic (fst tp); w_sid := gsid g; w_mid := gid g; w_topics := gtopics g; w_bal := 0; w_pay := snd tp |}.
 Definition hb_msg (g : group) : wmsg :=
   {| w_wtopic := wire_ctl; w_sid := gsid g; w_mid := gid g; w_topics := gtopics g; w_bal := 0; w_pay := 0 |}.
-Definition msgs_of (g : group) : list wmsg := map (data_msg g) (parts g) ++ [hb_msg g].
+Definition msgs_of (g : group) : list wmsg := map (data_msg g) (vparts g) ++ [hb_msg g].
 Definition stream (gs : list group) : list wmsg := concat (map msgs_of gs).
 
 Definition visible_name (t : str) : Prop := hidden t = false /\ t <> [].
-Definition group_wf (g : group) : Prop :=
-  parts g <> [] /\ NoDup (gtopics g) /\ Forall visible_name (gtopics g).
+(* any number of topics (none, only hidden ones, ...), distinct, non-empty names *)
+Definition group_wf (g : group) : Prop := NoDup (gtopics g) /\ Forall (fun t => t <> []) (gtopics g).
+
+Lemma vparts_names g : map fst (vparts g) = filter (fun t => negb (hidden t)) (gtopics g).
+Proof. unfold vparts, gtopics. induction (parts g) as [|tp ps IH]; [reflexivity|]. cbn. destruct (hidden (fst tp)); cbn; rewrite IH; reflexivity. Qed.
+Lemma NoDup_filter {A} (f : A -> bool) l : NoDup l -> NoDup (filter f l).
+Proof.
+  induction 1 as [|x l Hx Hl IH]; [constructor|]. cbn. destruct (f x); [|exact IH].
+  constructor; [|exact IH]. intro Hc. apply filter_In in Hc as [Hc _]. contradiction.
+Qed.
+Lemma vparts_wf g : group_wf g -> NoDup (map fst (vparts g)) /\ Forall visible_name (map fst (vparts g)).
+Proof.
+  intros [Hnd Hne]. rewrite vparts_names. split; [apply NoDup_filter; exact Hnd|].
+  rewrite Forall_forall in *. intros t Ht. apply filter_In in Ht as [Ht Hh]. split; [destruct (hidden t); [discriminate|reflexivity]|apply Hne; exact Ht].
+Qed.
 
 Fixpoint ids_increasing (p : Z) (gs : list group) : Prop :=
   match gs with [] => True | g :: gs' => p < gid g /\ ids_increasing (gid g) gs' end.
@@ -77,12 +93,26 @@ Qed.
 Lemma str_eqb_neq a b : a <> b -> str_eqb a b = false.
 Proof. intro H. destruct (str_eqb a b) eqn:E; [apply str_eqb_eq in E; contradiction|reflexivity]. Qed.
 
+(* hidden names are skipped when the dictionary is created from a topic list *)
+Lemma fold_skip_hidden {D} (F : D -> str -> D) l : forall acc,
+  fold_left (fun d t => if hidden t then d else F d t) l acc =
+  fold_left (fun d t => if hidden t then d else F d t) (filter (fun t => negb (hidden t)) l) acc.
+Proof.
+  induction l as [|t l IH]; intro acc; [reflexivity|]. cbn [fold_left filter].
+  destruct (hidden t) eqn:Eh; cbn [negb]; [apply IH|]. cbn [fold_left]. rewrite Eh. apply IH.
+Qed.
+
+Lemma init_recvd_vis g sm topic :
+  init_recvd SubAll sm topic (gtopics g) =
+  fold_left (fun d t0 => if hidden t0 then d else dset t0 (if str_eqb t0 topic then Some sm else None) d) (map fst (vparts g)) [].
+Proof. unfold init_recvd. rewrite vparts_names. apply (fold_skip_hidden (fun d t0 => dset t0 (if str_eqb t0 topic then Some sm else None) d)). Qed.
+
 (* the first data part of a group into an empty (None) subscribe-all source *)
 Lemma init_recvd_first g tp ps :
-  parts g = tp :: ps -> group_wf g ->
-  init_recvd SubAll (stored_of g tp) (fst tp) (gtopics g) = rec_of g (parts g) 1.
+  vparts g = tp :: ps -> group_wf g ->
+  init_recvd SubAll (stored_of g tp) (fst tp) (gtopics g) = rec_of g (vparts g) 1.
 Proof.
-  intros Ep (_ & Hnd & Hv). unfold init_recvd, gtopics in *. rewrite Ep in *. cbn [map fold_left rec_of].
+  intros Ep Hwf. destruct (vparts_wf g Hwf) as [Hnd Hv]. rewrite init_recvd_vis. rewrite Ep in *. cbn [map fold_left rec_of] in *.
   inversion Hnd as [|? ? Hni Hnd']; subst. inversion Hv as [|? ? [Hh _] Hv']; subst.
   rewrite Hh, str_eqb_refl. cbn [dset].
   rewrite (fold_init_none g (stored_of g tp) (fst tp) ps [(fst tp, Some (stored_of g tp))]); [reflexivity| |exact Hnd'].
@@ -90,6 +120,10 @@ Proof.
   - apply str_eqb_neq. intro; subst t. contradiction.
   - cbn. intros [Hc|[]]. subst t. contradiction.
 Qed.
+
+(* a frame without visible topics: the heartbeat itself creates the (empty, complete) dictionary *)
+Lemma init_recvd_empty g sm topic : vparts g = [] -> init_recvd SubAll sm topic (gtopics g) = [].
+Proof. intro H. rewrite init_recvd_vis, H. reflexivity. Qed.
 
 (* storing the q-th part (q >= 1) *)
 Lemma dset_rec_of g ps : forall q tp,
@@ -134,18 +168,28 @@ Proof.
 Qed.
 
 Lemma skipn_msgs_data g q tp :
-  nth_error (parts g) q = Some tp ->
+  nth_error (vparts g) q = Some tp ->
   skipn q (msgs_of g) = data_msg g tp :: skipn (S q) (msgs_of g).
 Proof.
-  unfold msgs_of. generalize (parts g) as ps. intros ps. revert q. induction ps as [|tp0 ps IH]; intros q Hn; [destruct q; discriminate|].
+  unfold msgs_of. generalize (vparts g) as ps. intros ps. revert q. induction ps as [|tp0 ps IH]; intros q Hn; [destruct q; discriminate|].
   destruct q; cbn in Hn; [inversion Hn; reflexivity|]. cbn [map app skipn]. apply IH. exact Hn.
 Qed.
 
-Lemma skipn_msgs_end g : skipn (length (parts g)) (msgs_of g) = [hb_msg g].
+Lemma skipn_msgs_end g : skipn (length (vparts g)) (msgs_of g) = [hb_msg g].
 Proof.
   unfold msgs_of. rewrite skipn_app, map_length, Nat.sub_diag. cbn.
   rewrite skipn_all2; [reflexivity|rewrite map_length; lia].
 Qed.
+
+Lemma msgs_of_length g : length (msgs_of g) = S (length (vparts g)).
+Proof. unfold msgs_of. rewrite app_length, map_length. cbn. lia. Qed.
+
+Lemma skipn_msgs_all g : skipn (S (length (vparts g))) (msgs_of g) = [].
+Proof. apply skipn_all2. rewrite msgs_of_length. lia. Qed.
+
+(* a dictionary that is full stays the same whatever larger count it is described by *)
+Lemma rec_of_sat g ps : forall q, (length ps <= q)%nat -> rec_of g ps q = rec_of g ps (length ps).
+Proof. induction ps as [|tp ps IH]; intros q H; [reflexivity|]. destruct q; cbn in *; [lia|]. rewrite (IH q) by lia. reflexivity. Qed.
 
 Section Edge.
   Variable gs : list group.
@@ -157,7 +201,8 @@ Section Edge.
 
   Definition prev_of (n : nat) : Z := match n with O => MSG_ID_INITIAL_PREV | S k => match nth_error gs k with Some g => gid g | None => 0 end end.
 
-  (* what is still unread after n groups were returned, with q parts of the next one stored *)
+  (* what is still unread after n groups were returned, with q messages of the next one consumed into the dictionary
+     (q <= number of visible parts; or, for a frame without visible parts, q = 1: its heartbeat created the empty set) *)
   Definition unread (n : nat) (hbp : bool) (q : nat) : list wmsg :=
     (if hbp then match n with S k => match nth_error gs k with Some g => [hb_msg g] | None => [] end | O => [] end else []) ++
     match nth_error gs n with
@@ -197,7 +242,7 @@ Section Edge.
   Record abs := { a_n : nat; a_hbp : bool; a_q : nat; a_queue : list wmsg; a_rest : list wmsg }.
 
   Definition complete (a : abs) : bool :=
-    match nth_error gs (a_n a) with Some g => negb (a_q a =? 0)%nat && (a_q a =? length (parts g))%nat | None => false end.
+    match nth_error gs (a_n a) with Some g => negb (a_q a =? 0)%nat && (length (vparts g) <=? a_q a)%nat | None => false end.
 
   Definition lim (a : abs) (c : Z) : Prop :=
     prev_of (a_n a) < c /\
@@ -206,14 +251,14 @@ Section Edge.
   Definition abs_ok (a : abs) : Prop :=
     a_queue a ++ a_rest a = unread (a_n a) (a_hbp a) (a_q a) /\
     (a_hbp a = true -> a_q a = 0%nat /\ (0 < a_n a)%nat) /\
-    (forall g, nth_error gs (a_n a) = Some g -> (a_q a <= length (parts g))%nat) /\
+    (forall g, nth_error gs (a_n a) = Some g -> (a_q a <= Nat.max (length (vparts g)) 1)%nat) /\
     (nth_error gs (a_n a) = None -> a_q a = 0%nat) /\
     (a_n a <= length gs)%nat.
 
   Definition src_rel (a : abs) (s : src) : Prop :=
     cfg s = c0 /\ queue s = a_queue a /\
     recvd s = (if (a_q a =? 0)%nat then None
-               else match nth_error gs (a_n a) with Some g => Some (rec_of g (parts g) (a_q a)) | None => None end) /\
+               else match nth_error gs (a_n a) with Some g => Some (rec_of g (vparts g) (a_q a)) | None => None end) /\
     registered s = negb (complete a).
 
   Definition srcs_rel (a : abs) (l : list src) : Prop := exists s, l = [s] /\ src_rel a s.
@@ -242,7 +287,7 @@ Section Edge.
 
   Lemma msgs_of_ok g p : group_wf g -> p < gid g -> MSG_ID_INITIAL_PREV <= p -> Forall msg_ok (msgs_of g).
   Proof.
-    intros (_ & _ & Hv) Hp Hp0. unfold msgs_of. apply Forall_app. split.
+    intros Hg Hp Hp0. destruct (vparts_wf g Hg) as [_ Hv]. unfold msgs_of. apply Forall_app. split.
     - rewrite Forall_forall. intros m Hm. apply in_map_iff in Hm as (tp & <- & Htp).
       rewrite Forall_forall in Hv. destruct (Hv (fst tp) (in_map fst _ _ Htp)) as [Hh _].
       unfold msg_ok, data_msg. cbn [w_wtopic w_bal w_mid]. unfold wire_of_topic. rewrite Hh.
@@ -350,19 +395,22 @@ Section Edge.
   Qed.
 
   (* ---- the simulation, item by item --------------------------------------------------------------- *)
+  (* does the SUB socket (SUBSCRIBE "/") let the message through?  Hidden-topic parts are published too, and dropped here *)
+  Definition passes (m : wmsg) : bool := sub_match (subs_of SubAll) (w_wtopic m).
+  Local Arguments passes : simpl never.
   Definition fed_item (a : abs) (it : ritem) : Prop :=
     match it with
-    | IDeliver i m => i = 0%nat /\ exists r, a_rest a = m :: r
+    | IDeliver i m => i = 0%nat /\ (passes m = true -> exists r, a_rest a = m :: r)
     | ICall state _ _ => state = None
     | _ => True
     end.
   Definition rest_after (a : abs) (it : ritem) : list wmsg :=
-    match it with IDeliver _ _ => tl (a_rest a) | _ => a_rest a end.
+    match it with IDeliver _ m => if passes m then tl (a_rest a) else a_rest a | _ => a_rest a end.
 
   (* what the application is handed: (id, {topic: frame}) *)
   Definition frames (o : list rout) : list (Z * list (str * stored)) :=
     flat_map (fun x => match x with ORet d id _ => [(id, d)] | _ => [] end) o.
-  Definition frame_of (g : group) : Z * list (str * stored) := (gid g, map (fun tp => (fst tp, stored_of g tp)) (parts g)).
+  Definition frame_of (g : group) : Z * list (str * stored) := (gid g, map (fun tp => (fst tp, stored_of g tp)) (vparts g)).
   Lemma frames_app x y : frames (x ++ y) = frames x ++ frames y.
   Proof. unfold frames. apply flat_map_app. Qed.
   Lemma rets_nil_frames o : rets o = [] -> frames o = [].
@@ -385,7 +433,16 @@ Section Edge.
   Lemma step_deliver a st m st' o :
     Rel a st -> fed_item a (IDeliver 0 m) -> rstep Repaired st (IDeliver 0 m) = (st', o) -> outcome a (IDeliver 0 m) st' o.
   Proof.
-    intros R (_ & r & Hr) H. pose proof (Rel_not_dead _ _ R) as Hnd.
+    intros R (_ & Hp) H. pose proof (Rel_not_dead _ _ R) as Hnd.
+    destruct (passes m) eqn:Epass.
+    2: { (* filtered out by the subscription: nothing happens *)
+      assert (E : st' = st /\ o = []).
+      { pose proof R as (_ & _ & _ & (s & Hs & (Cf & _)) & _). unfold rstep in H.
+        destruct (control st); try (exfalso; apply Hnd; reflexivity);
+          rewrite Hs in H; cbn [nth_error] in H; rewrite Cf in H; cbn [sc_mode c0] in H; unfold passes in Epass; cbn [sc_mode c0] in Epass;
+          rewrite Epass in H; inversion H; auto. }
+      destruct E as [-> ->]. apply stay; [exact R|reflexivity|]. unfold rest_after. rewrite Epass. reflexivity. }
+    destruct (Hp eq_refl) as [r Hr].
     destruct R as (Ok & Bal & Prev & (s & Hs & Sr) & C).
     assert (Hm : msg_ok m).
     { destruct Ok as (Eq & _). pose proof (unread_ok (a_n a) (a_hbp a) (a_q a)) as F. rewrite <- Eq, Hr in F.
@@ -394,7 +451,7 @@ Section Edge.
       rewrite Hs in H; cbn [nth_error] in H; destruct Sr as (Cf & Qe & Re & Ge); rewrite Cf in H; cbn [sc_mode c0] in H;
       destruct Hm as (Hsub & _); rewrite Hsub in H; inversion H; subst st' o; clear H;
       (right; exists {| a_n := a_n a; a_hbp := a_hbp a; a_q := a_q a; a_queue := a_queue a ++ [m]; a_rest := r |};
-       split; [|split; [cbn; rewrite Hr; reflexivity|left; split; reflexivity]];
+       split; [|split; [unfold rest_after; rewrite Epass; cbn; rewrite Hr; reflexivity|left; split; reflexivity]];
        split; [destruct Ok as (Eq & O2); split; [cbn [a_queue a_rest a_n a_hbp a_q]; rewrite <- Eq, Hr, <- app_assoc; reflexivity|exact O2]|];
        split; [exact Bal|]; split; [exact Prev|]; split;
        [exists (with_queue (queue s ++ [m]) s); split; [reflexivity|]; unfold src_rel; cbn [cfg queue recvd registered with_queue a_queue a_n a_q];
@@ -523,19 +580,18 @@ Section Edge.
     cbn in Hn. discriminate.
   Qed.
 
-  Lemma complete_false_lt a g : abs_ok a -> complete a = false -> nth_error gs (a_n a) = Some g -> (a_q a < length (parts g))%nat.
+  Lemma complete_false_cases a g : abs_ok a -> complete a = false -> nth_error gs (a_n a) = Some g ->
+    (a_q a < length (vparts g))%nat \/ (a_q a = 0%nat /\ vparts g = []).
   Proof.
-    intros (_ & _ & Hle & _) Hc Hg. specialize (Hle g Hg). unfold complete in Hc. rewrite Hg in Hc.
-    pose proof (wf_nth _ _ Hg) as (Hne & _).
+    intros _ Hc Hg. unfold complete in Hc. rewrite Hg in Hc.
     destruct (a_q a) as [|q] eqn:Eq.
-    - destruct (parts g); [contradiction|cbn; lia].
-    - change (S q =? 0)%nat with false in Hc. cbn [negb andb] in Hc. apply Nat.eqb_neq in Hc. lia.
+    - destruct (vparts g); [right; auto|left; cbn; lia].
+    - change (S q =? 0)%nat with false in Hc. cbn [negb andb] in Hc. apply Nat.leb_gt in Hc. left. exact Hc.
   Qed.
 
-  Lemma got_all_rec_of s g q : recvd s = Some (rec_of g (parts g) q) -> (q <= length (parts g))%nat ->
-    got_all s = (q =? length (parts g))%nat.
+  Lemma got_all_rec_of s g ps q : recvd s = Some (rec_of g ps q) -> got_all s = (length ps <=? q)%nat.
   Proof.
-    intros Hr Hle. unfold got_all. rewrite Hr. destruct (Nat.eqb_spec q (length (parts g))) as [E|E].
+    intros Hr. unfold got_all. rewrite Hr. destruct (Nat.leb_spec (length ps) q) as [E|E].
     - apply rec_of_all_some. lia.
     - apply rec_of_not_all. lia.
   Qed.
@@ -543,14 +599,20 @@ Section Edge.
   Lemma rec_of_length g ps q : length (rec_of g ps q) = length ps.
   Proof. rewrite <- (map_length fst), rec_of_keys, map_length. reflexivity. Qed.
 
-  Lemma got_rec_of s g q : recvd s = Some (rec_of g (parts g) q) -> parts g <> [] -> (0 < q <= length (parts g))%nat ->
-    got s = if (q =? length (parts g))%nat then 2 else 1.
+  Lemma rec_of_nones g ps q :
+    (length (filter (fun kv : str * option stored => match snd kv with None => true | _ => false end) (rec_of g ps q))
+     = length ps - Nat.min q (length ps))%nat.
+  Proof. revert q; induction ps as [|tp ps IH]; intro q; [reflexivity|]. destruct q; cbn [rec_of filter snd length]; rewrite IH; cbn; lia. Qed.
+
+  Lemma got_rec_of s g ps q : recvd s = Some (rec_of g ps q) -> (0 < q)%nat \/ ps = [] ->
+    got s = if (length ps <=? q)%nat then 2 else 1.
   Proof.
-    intros Hr Hne Hq. unfold got. rewrite Hr, rec_of_got, rec_of_length by exact Hne.
-    destruct (Nat.eqb_spec q (length (parts g))) as [E|E].
-    - replace (length (parts g) - Nat.min q (length (parts g)))%nat with 0%nat by lia. reflexivity.
-    - destruct (Nat.eqb_spec (length (parts g) - Nat.min q (length (parts g))) 0); [lia|].
-      destruct (Nat.eqb_spec (length (parts g) - Nat.min q (length (parts g))) (length (parts g))); [lia|reflexivity].
+    intros Hr Hq. unfold got. rewrite Hr, rec_of_nones, rec_of_length.
+    destruct (Nat.leb_spec (length ps) q) as [E|E].
+    - replace (length ps - Nat.min q (length ps))%nat with 0%nat by lia. reflexivity.
+    - assert (0 < q)%nat by (destruct Hq as [Hq|Hq]; [exact Hq|subst ps; cbn in E; lia]).
+      destruct (Nat.eqb_spec (length ps - Nat.min q (length ps)) 0); [lia|].
+      destruct (Nat.eqb_spec (length ps - Nat.min q (length ps)) (length ps)); [lia|reflexivity].
   Qed.
 
   Lemma ready_flags_single st s : srcs st = [s] -> balance st = false -> cfg s = c0 -> ready_flags st = (got s =? 2).
@@ -606,36 +668,29 @@ Section Edge.
       split; [|rewrite Cm; discriminate].
       rewrite (ready_flags_single (with_srcs [with_conn true (with_queue q' s)] stq) (with_conn true (with_queue q' s)) eq_refl Bal Cf), Cm. unfold got. cbn [recvd with_conn with_queue].
       rewrite Re, Eq0. reflexivity.
-    - (* a data part of the group under assembly *)
+    - (* a message of the group under assembly *)
       destruct (nth_error gs (a_n a)) as [g|] eqn:Eg.
       2: { unfold unread in Eq. rewrite Eg in Eq. discriminate. }
-      pose proof (complete_false_lt a g Ok Cc Eg) as Hlt.
-      destruct (nth_error (parts g) (a_q a)) as [tp|] eqn:Etp; [|apply nth_error_None in Etp; lia].
-      unfold unread in Eq. rewrite Eg in Eq. cbn [app] in Eq. rewrite (skipn_msgs_data g _ tp Etp) in Eq. cbn [app] in Eq.
-      injection Eq as Em Erest.
-      pose proof (wf_nth _ _ Eg) as (Hne & Hnd' & Hvis).
-      assert (Hvt : visible_name (fst tp)) by (rewrite Forall_forall in Hvis; apply Hvis; apply in_map; eapply nth_error_In; exact Etp).
-      assert (Htw : topic_of_wire (w_wtopic m) = fst tp) by (subst m; apply topic_of_wire_of_topic).
+      pose proof (wf_nth _ _ Eg) as Hgwf. destruct (vparts_wf g Hgwf) as [Hnd' Hvis].
+      unfold unread in Eq. rewrite Eg in Eq. cbn [app] in Eq.
       set (a' := mk_abs (a_n a) false (S (a_q a)) q' (a_rest a)).
-      assert (Ok' : abs_ok a').
-      { split; [cbn; unfold unread; rewrite Eg; cbn [app]; exact Erest|]. split; [discriminate|].
-        split; [cbn; intros g' Hg'; rewrite Eg in Hg'; inversion Hg'; subst; lia|]. split; [cbn; rewrite Eg; discriminate|exact Hn]. }
-      assert (Cm : complete a' = (S (a_q a) =? length (parts g))%nat) by (unfold complete; cbn; rewrite Eg; reflexivity).
-      assert (Hmid : w_mid m = gid g) by (subst m; reflexivity).
-      assert (Hsm : {| st_pay := w_pay m; st_mid := w_mid m; st_src := 0%nat; st_topic := topic_of_wire (w_wtopic m) |} = stored_of g tp)
-        by (rewrite Htw; subst m; reflexivity).
-      assert (Htop : w_topics m = gtopics g) by (subst m; reflexivity).
-      (* both sub-cases end in the same shape *)
+      assert (Cm : complete a' = (length (vparts g) <=? S (a_q a))%nat) by (unfold complete; cbn; rewrite Eg; reflexivity).
+      (* whichever message it is, the step ends in the same shape *)
       match goal with |- ?G =>
-      assert (Fin : forall s2, cfg s2 = c0 -> queue s2 = q' -> registered s2 = true -> recvd s2 = Some (rec_of g (parts g) (S (a_q a))) ->
+      assert (Fin : w_mid m = gid g -> q' ++ a_rest a = skipn (S (a_q a)) (msgs_of g) ++ stream (skipn (S (a_n a)) gs) ->
+                 (S (a_q a) <= Nat.max (length (vparts g)) 1)%nat ->
+                 forall s2, cfg s2 = c0 -> queue s2 = q' -> registered s2 = true -> recvd s2 = Some (rec_of g (vparts g) (S (a_q a))) ->
                  (with_srcs [if got_all s2 then with_reg false s2 else s2] (with_srcs [s2] stq), setmin f (w_mid m), @nil rout, false)
                  = on_msg Repaired stq f 0 m -> G) end.
-      { intros s2 C2 Q2 G2 R2 E. rewrite <- E in H.
+      { intros Hmid Erest Hmax s2 C2 Q2 G2 R2 E. rewrite <- E in H.
+        assert (Ok' : abs_ok a').
+        { split; [cbn; unfold unread; rewrite Eg; cbn [app]; exact Erest|]. split; [discriminate|].
+          split; [cbn; intros g' Hg'; rewrite Eg in Hg'; inversion Hg'; subst; exact Hmax|]. split; [cbn; rewrite Eg; discriminate|exact Hn]. }
         change (control (with_srcs [if got_all s2 then with_reg false s2 else s2] (with_srcs [s2] stq))) with (control st) in H.
         assert (H' : (with_srcs [if got_all s2 then with_reg false s2 else s2] (with_srcs [s2] stq), setmin f (w_mid m), @nil rout) = (st1, f1, o1)).
         { destruct (control st); exact H. }
         clear H. inversion H'; clear H'. subst f1 st1 o1.
-        pose proof (got_all_rec_of s2 g _ R2 Hlt) as Ga. rewrite <- Cm in Ga.
+        pose proof (got_all_rec_of s2 g _ _ R2) as Ga. rewrite <- Cm in Ga.
         exists a'. split; [exact Ok'|]. split; [reflexivity|]. split; [reflexivity|]. split; [reflexivity|]. split; [exact Bal|].
         split; [reflexivity|]. split; [reflexivity|].
         split.
@@ -644,30 +699,54 @@ Section Edge.
         split; [unfold lim; cbn [setmin f_min a' mk_abs a_n a_q]; rewrite Hmid; split; [apply prev_lt_next; exact Eg|intros g' Hg'; rewrite Eg in Hg'; inversion Hg'; reflexivity]|].
         split; [reflexivity|]. split.
         - set (sf := if got_all s2 then with_reg false s2 else s2).
-          assert (Rf : recvd sf = Some (rec_of g (parts g) (S (a_q a)))) by (unfold sf; destruct (got_all s2); exact R2).
+          assert (Rf : recvd sf = Some (rec_of g (vparts g) (S (a_q a)))) by (unfold sf; destruct (got_all s2); exact R2).
           assert (Cff : cfg sf = c0) by (unfold sf; destruct (got_all s2); exact C2).
           rewrite (ready_flags_single (with_srcs [sf] (with_srcs [s2] stq)) sf eq_refl Bal Cff).
-          rewrite (got_rec_of sf g _ Rf Hne) by lia. rewrite Cm. destruct (S (a_q a) =? length (parts g))%nat; reflexivity.
+          rewrite (got_rec_of sf g _ _ Rf) by (left; lia). rewrite Cm. destruct (length (vparts g) <=? S (a_q a))%nat; reflexivity.
         - intros _ g' Hg'. inversion Hg'; subst g'. exact Hmid. }
       destruct Cl as [Cl1 Cl2]. specialize (Cl2 g Eg).
-      destruct (a_q a) as [|q] eqn:Eq0.
-      + (* the first part: the dictionary is created from the topics list *)
+      destruct (complete_false_cases a g Ok Cc Eg) as [Hlt|[Hq0 Hvp]].
+      + (* a data part *)
+        destruct (nth_error (vparts g) (a_q a)) as [tp|] eqn:Etp; [|apply nth_error_None in Etp; lia].
+        rewrite (skipn_msgs_data g _ tp Etp) in Eq. cbn [app] in Eq. injection Eq as Em Erest.
+        assert (Hvt : visible_name (fst tp)) by (rewrite Forall_forall in Hvis; apply Hvis; apply in_map; eapply nth_error_In; exact Etp).
+        assert (Htw : topic_of_wire (w_wtopic m) = fst tp) by (subst m; apply topic_of_wire_of_topic).
+        assert (Hmid : w_mid m = gid g) by (subst m; reflexivity).
+        assert (Hsm : {| st_pay := w_pay m; st_mid := w_mid m; st_src := 0%nat; st_topic := topic_of_wire (w_wtopic m) |} = stored_of g tp)
+          by (rewrite Htw; subst m; reflexivity).
+        assert (Htop : w_topics m = gtopics g) by (subst m; reflexivity).
+        assert (Hmax : (S (a_q a) <= Nat.max (length (vparts g)) 1)%nat) by lia.
+        specialize (Fin Hmid Erest Hmax).
+        destruct (a_q a) as [|q] eqn:Eq0.
+        * (* the first part: the dictionary is created from the topics list *)
+          change (0 =? 0)%nat with true in Re, Cl2. cbv iota in Re, Cl2.
+          assert (Hge : f_min f <= w_mid m) by (rewrite Hmid; exact Cl2).
+          pose proof (on_msg_first stq f (with_queue q' s) m Hsq Cq Bal Hb0 Hsp Hge Re Hreg) as E. cbv zeta in E.
+          rewrite Hsm, Htw, Htop in E.
+          destruct (vparts g) as [|tp0 ps] eqn:Ep; [cbn in Hlt; lia|]. cbn in Etp. inversion Etp; subst tp0.
+          rewrite (init_recvd_first g tp ps Ep Hgwf) in E. rewrite Ep in E.
+          eapply Fin; [..|symmetry; exact E]; try reflexivity; try exact Cf; try exact Hreg.
+        * (* a later part of the same id *)
+          change (S q =? 0)%nat with false in Re, Cl2. cbv iota in Re, Cl2.
+          assert (Hge : f_min f = w_mid m) by (rewrite Hmid; exact Cl2).
+          assert (Htn : topic_of_wire (w_wtopic m) <> []) by (rewrite Htw; destruct Hvt as [_ Hx]; exact Hx).
+          pose proof (on_msg_next stq f (with_queue q' s) m _ Hsq Cq Bal Hb0 Hsp Hge Re Hreg Htn) as E. cbv zeta in E.
+          rewrite Hsm, Htw in E.
+          rewrite (dset_rec_of g (vparts g) (S q) tp Hnd' Etp) in E.
+          eapply Fin; [..|symmetry; exact E]; try reflexivity; try exact Cf; try exact Hreg.
+      + (* the heartbeat of a frame without visible topics: it creates the empty, complete set *)
+        assert (Emsgs : msgs_of g = [hb_msg g]) by (unfold msgs_of; rewrite Hvp; reflexivity).
+        rewrite Hq0 in *. rewrite Emsgs in Eq. cbn [skipn app] in Eq. injection Eq as Em Erest.
+        assert (Hmid : w_mid m = gid g) by (subst m; reflexivity).
+        assert (Htop : w_topics m = gtopics g) by (subst m; reflexivity).
         change (0 =? 0)%nat with true in Re, Cl2. cbv iota in Re, Cl2.
         assert (Hge : f_min f <= w_mid m) by (rewrite Hmid; exact Cl2).
         pose proof (on_msg_first stq f (with_queue q' s) m Hsq Cq Bal Hb0 Hsp Hge Re Hreg) as E. cbv zeta in E.
-        rewrite Hsm, Htw, Htop in E.
-        destruct (parts g) as [|tp0 ps] eqn:Ep; [contradiction|]. cbn in Etp. inversion Etp; subst tp0.
-        rewrite (init_recvd_first g tp ps Ep (wf_nth _ _ Eg)) in E.
-        eapply Fin; [..|symmetry; exact E]; try reflexivity; try exact Cf; try exact Hreg.
-        cbn [recvd with_recvd]. rewrite Ep. reflexivity.
-      + (* a later part of the same id *)
-        change (S q =? 0)%nat with false in Re, Cl2. cbv iota in Re, Cl2.
-        assert (Hge : f_min f = w_mid m) by (rewrite Hmid; exact Cl2).
-        assert (Htn : topic_of_wire (w_wtopic m) <> []) by (rewrite Htw; destruct Hvt as [_ Hx]; exact Hx).
-        pose proof (on_msg_next stq f (with_queue q' s) m _ Hsq Cq Bal Hb0 Hsp Hge Re Hreg Htn) as E. cbv zeta in E.
-        rewrite Hsm, Htw in E.
-        rewrite (dset_rec_of g (parts g) (S q) tp Hnd' Etp) in E.
-        eapply Fin; [..|symmetry; exact E]; try reflexivity; try exact Cf; try exact Hreg.
+        rewrite Htop, (init_recvd_empty g _ _ Hvp) in E.
+        refine (Fin Hmid _ _ (with_recvd (Some []) (with_conn true (with_queue q' s))) Cf eq_refl Hreg _ (eq_sym E)).
+        * rewrite Emsgs. exact Erest.
+        * rewrite Hvp. cbn. lia.
+        * cbn [recvd with_recvd]. rewrite Hvp. reflexivity.
   Qed.
 
   (* ---- the complete set is handed out ----------------------------------------------------------- *)
@@ -707,19 +786,23 @@ Section Edge.
     destruct R as (Ok & Bal & Prev & Sr & C).
     pose proof (srcs_rel_views _ _ _ V Sr) as (s1 & Hs1 & Cf & Qe & Re & Ge).
     unfold complete in Cc. destruct (nth_error gs (a_n a)) as [g|] eqn:Eg; [|discriminate].
-    apply andb_true_iff in Cc as [Cq0 Cq]. apply Nat.eqb_eq in Cq. rewrite Cq in Re.
-    destruct (length (parts g) =? 0)%nat eqn:E0; [rewrite Cq, E0 in Cq0; discriminate|].
-    pose proof (wf_nth _ _ Eg) as (Hne & Hnd & Hvis).
+    apply andb_true_iff in Cc as [Cq0 Cq]. apply Nat.leb_le in Cq. apply negb_true_iff in Cq0. rewrite Cq0 in Re.
+    rewrite (rec_of_sat g (vparts g) _ Cq) in Re.
+    destruct (vparts_wf g (wf_nth _ _ Eg)) as [Hnd Hvis].
     cbn [srcs with_prev] in H. rewrite Hs1 in H. cbn [assemble] in H. rewrite Cf, Re in H. cbn [sc_mode c0] in H.
-    rewrite (assemble_src_rec_of g (parts g) [] Hnd) in H by (intros t _ []).
+    rewrite (assemble_src_rec_of g (vparts g) [] Hnd) in H by (intros t _ []).
     inversion H; subst st' o; clear H.
-    right. exists (mk_abs (S (a_n a)) true 0 (a_queue a) (a_rest a)).
+    right. exists (mk_abs (S (a_n a)) (a_q a =? length (vparts g))%nat 0 (a_queue a) (a_rest a)).
     split.
     { split.
-      { pose proof Ok as (Eq & Hh & _ & _ & Hn).
+      { pose proof Ok as (Eq & Hh & Hmax & _ & Hn). specialize (Hmax g Eg).
         split; [cbn [mk_abs a_queue a_rest a_n a_hbp a_q]; rewrite Eq; unfold unread; rewrite Eg|].
-        - destruct (a_hbp a) eqn:Eh; [destruct (Hh eq_refl) as [Hq0 _]; rewrite Cq in Hq0; rewrite Hq0 in E0; discriminate|].
-          cbn [app]. rewrite Cq, skipn_msgs_end. cbn [app]. rewrite stream_skipn. cbn [skipn]. reflexivity.
+        - destruct (a_hbp a) eqn:Eh; [destruct (Hh eq_refl) as [Hq0 _]; rewrite Hq0 in Cq0; discriminate|].
+          cbn [app]. rewrite (stream_skipn gs (S (a_n a))).
+          destruct (Nat.eqb_spec (a_q a) (length (vparts g))) as [E|E].
+          + rewrite E, skipn_msgs_end. reflexivity.
+          + assert (E1 : a_q a = S (length (vparts g))) by (apply Nat.eqb_neq in Cq0; lia).
+            rewrite E1, skipn_msgs_all. reflexivity.
         - split; [intros _; split; [reflexivity|cbn; lia]|]. split; [cbn; intros; lia|]. split; [reflexivity|].
           cbn. assert (nth_error gs (a_n a) <> None) by congruence. apply nth_error_Some in H. lia. }
       split; [exact (eq_trans B1 Bal)|]. split; [cbn [prev_id with_ctl with_cur with_srcs with_prev mk_abs a_n prev_of]; rewrite Eg; apply Hf; reflexivity|].
@@ -787,7 +870,7 @@ Section Edge.
   Fixpoint fed (rest : list wmsg) (its : list ritem) : Prop :=
     match its with
     | [] => True
-    | IDeliver i m :: its' => i = 0%nat /\ exists r, rest = m :: r /\ fed r its'
+    | IDeliver i m :: its' => i = 0%nat /\ (if passes m then exists r, rest = m :: r /\ fed r its' else fed rest its')
     | ICall state _ _ :: its' => state = None /\ fed rest its'
     | _ :: its' => fed rest its'
     end.
@@ -808,7 +891,9 @@ Section Edge.
     cbn [snd]. rewrite frames_app.
     assert (Fi : fed_item a it /\ fed (rest_after a it) its).
     { destruct it; cbn in F |- *; try (split; [exact I|exact F]).
-      - destruct F as (-> & r & Hr & F'). split; [split; [reflexivity|exists r; exact Hr]|rewrite Hr; exact F'].
+      - destruct F as (-> & F'). unfold rest_after. destruct (passes m) eqn:Ep.
+        + destruct F' as (r & Hr & F'). split; [split; [reflexivity|intros _; exists r; exact Hr]|rewrite Hr; exact F'].
+        + split; [split; [reflexivity|discriminate]|exact F'].
       - destruct F as [-> F']. split; [reflexivity|exact F']. }
     destruct Fi as [Fi Fr].
     destruct (rstep_edge a st it st1 o1 R Fi E1) as [[Hd Hn]|(a' & R' & Er & Hout)].
@@ -827,7 +912,7 @@ Section Edge.
   Fixpoint rest_of (rest : list wmsg) (its : list ritem) : list wmsg :=
     match its with
     | [] => rest
-    | IDeliver _ _ :: its' => rest_of (tl rest) its'
+    | IDeliver _ m :: its' => rest_of (if passes m then tl rest else rest) its'
     | _ :: its' => rest_of rest its'
     end.
 
@@ -849,7 +934,9 @@ Section Edge.
       inversion H; subst st3 o2; clear H.
       assert (Fi : fed_item a it /\ fed (rest_after a it) its /\ rest_of (a_rest a) (it :: its) = rest_of (rest_after a it) its).
       { destruct it; cbn in F |- *; try (split; [exact I|split; [exact F|reflexivity]]).
-        - destruct F as (-> & r & Hr & F'). split; [split; [reflexivity|exists r; exact Hr]|split; [rewrite Hr; exact F'|reflexivity]].
+        - destruct F as (-> & F'). unfold rest_after. destruct (passes m) eqn:Ep.
+          + destruct F' as (r & Hr & F'). split; [split; [reflexivity|intros _; exists r; exact Hr]|split; [rewrite Hr; exact F'|reflexivity]].
+          + split; [split; [reflexivity|discriminate]|split; [exact F'|reflexivity]].
         - destruct F as [-> F']. split; [reflexivity|split; [exact F'|reflexivity]]. }
       destruct Fi as (Fi & Fr & Erest).
       destruct (rstep_edge a st it st1 o1 R Fi E1) as [[Hd Hn]|(a' & R' & Er & Hout)].
@@ -863,15 +950,14 @@ Section Edge.
   Qed.
 
   Lemma unread_nil n hbp q :
-    (n <= length gs)%nat -> (forall g, nth_error gs n = Some g -> (q <= length (parts g))%nat) ->
+    (n <= length gs)%nat -> (forall g, nth_error gs n = Some g -> (q <= length (vparts g))%nat) ->
     unread n hbp q = [] -> n = length gs.
   Proof.
     intros Hn Hq Hu. unfold unread in Hu. apply app_eq_nil in Hu as [_ Hu].
     destruct (nth_error gs n) as [g|] eqn:Eg; [|apply nth_error_None in Eg; lia].
     exfalso. apply app_eq_nil in Hu as [Hu _]. specialize (Hq g eq_refl).
-    assert (Hl : length (skipn q (msgs_of g)) = (length (parts g) + 1 - q)%nat).
-    { rewrite skipn_length. unfold msgs_of. rewrite app_length, map_length. reflexivity. }
-    rewrite Hu in Hl. cbn in Hl. lia.
+    assert (Hl : length (skipn q (msgs_of g)) = (S (length (vparts g)) - q)%nat) by (rewrite skipn_length, msgs_of_length; reflexivity).
+    rewrite Hu in Hl. change (length (@nil wmsg)) with 0%nat in Hl. lia.
   Qed.
 
   Lemma Rel_init ll : Rel (mk_abs 0 false 0 [] (stream gs)) (init_receiver cid false ll [c0]).
@@ -889,22 +975,29 @@ Section Edge.
     exists k, frames (snd (rrun Repaired (init_receiver cid false ll [c0]) its)) = map frame_of (firstn k gs).
   Proof. intro F. exact (rrun_edge its _ _ (Rel_init ll) F). Qed.
 
-  (* nothing is dropped on the floor: once everything published has been delivered and the consumer (still alive)
-     has read its socket empty, EVERY published frame has been handed to the application *)
+  (* nothing is dropped on the floor: once everything published has been delivered and the consumer (alive, and not
+     holding a complete set it is about to return) has read its socket empty, EVERY published frame has been handed
+     to the application *)
   Theorem edge_drained_all ll its st2 o2 :
     fed (stream gs) its -> rrun Repaired (init_receiver cid false ll [c0]) its = (st2, o2) ->
-    control st2 <> Dead -> rest_of (stream gs) its = [] -> (forall s, In s (srcs st2) -> queue s = []) ->
+    control st2 <> Dead -> (forall f, control st2 <> InP2 f) ->
+    rest_of (stream gs) its = [] -> (forall s, In s (srcs st2) -> queue s = []) ->
     frames o2 = map frame_of gs.
   Proof.
-    intros F H Hnd Hrest Hq.
+    intros F H Hnd Hnp2 Hrest Hq.
     destruct (rrun_edge_final its _ _ st2 o2 (Rel_init ll) F H) as [Hd|(a' & R' & Er & _ & Hfr)]; [contradiction|].
     cbn [mk_abs a_rest a_n] in Er, Hfr. rewrite Hrest in Er. rewrite Nat.sub_0_r in Hfr. cbn [skipn] in Hfr.
-    destruct R' as (Ok & _ & _ & (s & Hs & _ & Qe & _) & _).
+    destruct R' as (Ok & _ & _ & (s & Hs & _ & Qe & _) & C).
     assert (Hqe : a_queue a' = []) by (rewrite <- Qe; apply Hq; rewrite Hs; left; reflexivity).
-    destruct Ok as (Eq & _ & Hle & _ & Hn). rewrite Hqe, Er in Eq. cbn [app] in Eq.
+    assert (Cc : complete a' = false).
+    { unfold ctl_rel in C. destruct (control st2) as [|f|f|] eqn:Ec; try (destruct C as [C _]; exact C); [exfalso; eapply Hnp2; reflexivity|contradiction]. }
+    pose proof Ok as (Eq & _ & _ & _ & Hn). rewrite Hqe, Er in Eq. cbn [app] in Eq.
+    assert (Hle : forall g, nth_error gs (a_n a') = Some g -> (a_q a' <= length (vparts g))%nat).
+    { intros g Hg. destruct (complete_false_cases a' g Ok Cc Hg) as [Hlt|[Hq0 _]]; lia. }
     rewrite (unread_nil _ _ _ Hn Hle (eq_sym Eq)) in Hfr. rewrite firstn_all in Hfr. exact Hfr.
   Qed.
 End Edge.
+Arguments passes : simpl never.
 
 (* The lossless edge: whatever the interleaving of deliveries, poll answers, calls (any timeout) and clock values,
    the frames handed to the application are EXACTLY the first k published frames - ids, topics and payloads -
@@ -950,14 +1043,12 @@ Proof.
   constructor; [|apply IH; exact H2]. intro Hin. apply str_mem_In in Hin. rewrite Hin in H1. discriminate.
 Qed.
 Definition group_wfb (g : group) : bool :=
-  negb (match parts g with [] => true | _ => false end) && nodup_strb (gtopics g) &&
-  forallb (fun t => negb (hidden t) && negb (match t with [] => true | _ => false end)) (gtopics g).
+  nodup_strb (gtopics g) && forallb (fun t => negb (match t with [] => true | _ => false end)) (gtopics g).
 Lemma group_wfb_sound g : group_wfb g = true -> group_wf g.
 Proof.
-  unfold group_wfb, group_wf. intro H. apply andb_true_iff in H as [H H3]. apply andb_true_iff in H as [H1 H2].
-  split; [destruct (parts g); [discriminate|discriminate]|]. split; [apply nodup_strb_sound; exact H2|].
-  rewrite Forall_forall. intros t Ht. rewrite forallb_forall in H3. specialize (H3 t Ht).
-  apply andb_true_iff in H3 as [A B]. split; [destruct (hidden t); [discriminate|reflexivity]|destruct t; discriminate].
+  unfold group_wfb, group_wf. intro H. apply andb_true_iff in H as [H2 H3].
+  split; [apply nodup_strb_sound; exact H2|].
+  rewrite Forall_forall. intros t Ht. rewrite forallb_forall in H3. specialize (H3 t Ht). destruct t; discriminate.
 Qed.
 Fixpoint ids_incb (p : Z) (gs : list group) : bool :=
   match gs with [] => true | g :: gs' => (p <? gid g) && ids_incb (gid g) gs' end.
@@ -969,7 +1060,8 @@ Qed.
 Fixpoint fedb (rest : list wmsg) (its : list ritem) : bool :=
   match its with
   | [] => true
-  | IDeliver i m :: its' => Nat.eqb i 0 && match rest with m' :: r => wmsg_eqb m' m && fedb r its' | [] => false end
+  | IDeliver i m :: its' => Nat.eqb i 0 && (if passes m then match rest with m' :: r => wmsg_eqb m' m && fedb r its' | [] => false end
+                                            else fedb rest its')
   | ICall state _ _ :: its' => (match state with None => true | Some _ => false end) && fedb rest its'
   | _ :: its' => fedb rest its'
   end.
@@ -977,6 +1069,7 @@ Lemma fedb_sound its : forall rest, fedb rest its = true -> fed rest its.
 Proof.
   induction its as [|it its IH]; intros rest H; [exact I|]. destruct it; cbn in H |- *; try (apply IH; exact H).
   - apply andb_true_iff in H as [H1 H2]. apply Nat.eqb_eq in H1. split; [exact H1|].
+    destruct (passes m); [|apply IH; exact H2].
     destruct rest as [|m' r]; [discriminate|]. apply andb_true_iff in H2 as [H2 H3]. apply wmsg_eqb_eq in H2. subst m'.
     exists r. split; [reflexivity|apply IH; exact H3].
   - apply andb_true_iff in H as [H1 H2]. split; [destruct state; [discriminate|reflexivity]|apply IH; exact H2].
@@ -1001,7 +1094,7 @@ Definition run_edge (c : (list ((Z * Z) * list (str * Z)) * bool) * list ritem) 
   let '((gl, ll), its) := c in
   let gs := map mk_group gl in
   let '(st2, o2) := rrun Repaired (init_receiver 7 false ll [c0]) its in
-  let drained := (match control st2 with Dead => false | _ => true end) &&
+  let drained := (match control st2 with Idle => true | _ => false end) &&
                  (match rest_of (stream gs) its with [] => true | _ => false end) &&
                  forallb (fun s => match queue s with [] => true | _ => false end) (srcs st2) in
   VL [VB (edge_hyps gs its); VL (map enc_frame (frames o2)); VB drained].
